@@ -201,7 +201,13 @@ def hostile_spec(rng):
         # mutual / re-attachment in both directions inside one rule
         spec['passes'].append({'type': 'pos', 'pre': 0, 'maxloop': 5, 'rules': [
             {'pre': 0, 'pat': [-1, -1, -1], 'acts': [[('attach', 1)], [('attach', 1)], [('attach', -2)]], 'cons': [None] * 3, 'ret': rng.choice([0, -2])}]})
-    elif kind == 4 and spec['passes'][0]['type'] == 'sub':
+    if rng.random() < 0.25:
+        # some (or all) of the leading substitution passes become line-break passes: the loader accepts the same opcodes there
+        nsub = sum(1 for P in spec['passes'] if P['type'] == 'sub')
+        for P in spec['passes'][:rng.randrange(1, nsub + 1) if nsub else 0]:
+            if P['type'] == 'sub':
+                P['type'] = 'lb'
+    if kind == 4 and spec['passes'][0]['type'] in ('sub', 'lb'):
         # delete everything / delete first or last
         spec['passes'][0]['rules'].insert(0, {'pre': 0, 'pat': [-1], 'acts': [[('delete',)]], 'cons': [None if rng.random() < 0.5 else ('lt', ('gattr', 0, 4), ('const', 2))], 'ret': 0})
     return spec
@@ -458,4 +464,32 @@ def feat_spec(rng):
     recs.sort(key=lambda r_: (r_[0], r_[1], r_[2], r_[3]))
     spec['names'] = [list(r_) for r_ in recs]
     spec['tags'] = spec.get('tags', []) + ['name-layout-%d' % layout]
+    return spec
+
+
+def capedge_spec(rng):
+    """Insert budgets at their boundaries (C02 growth clause).  One rule inserts a glyph before 'a' and returns to 'a' again, so
+    every 'a' receives maxRuleLoop inserts; the texts listed in spec['texts'] make the final slot count land on, just below and
+    just above 64 x characters.  The inserting pass is a line-break, substitution or (refused by the loader) positioning pass,
+    alone or followed by other passes."""
+    glyphs = base_glyphs(rng)
+    n = rng.choice([2, 3, 4, 4])
+    k = rng.choice([-1, 0, 1, 1, n - 1, n])              # slots = 64 n + k
+    L = 63 * n + k                                         # inserts on the single 'a' of the text
+    if L > 255 or L < 1:
+        n, L = 2, 127
+    where = rng.choice(['lb', 'lb', 'sub', 'sub'])
+    storm = {'type': where, 'pre': 0, 'maxloop': L, 'rules': [{'pre': 0, 'pat': [0], 'acts': [[('insert',), ('put_glyph', 1), ('endins',)]], 'cons': [None], 'ret': -1}]}
+    passes = [storm]
+    tail = rng.randrange(4)
+    if tail == 1 and where == 'lb':
+        passes.append({'type': 'sub', 'pre': 0, 'maxloop': 2, 'rules': [{'pre': 0, 'pat': [2], 'acts': [[('put_glyph', 2)]], 'cons': [None], 'ret': 0}]})
+    if tail >= 2:
+        passes.append({'type': 'pos', 'pre': 0, 'maxloop': 2, 'rules': [{'pre': 0, 'pat': [1], 'acts': [[('attr', 'ShiftY', ('const', 5))]], 'cons': [None], 'ret': 0}]})
+    spec = {'nlinear': 3, 'dir': rng.randrange(2), 'glyphs': glyphs, 'cmap': {0x61 + i: 1 + i for i in range(6)}, 'nattrs': 8, 'user': 1,
+            'classes': [[1], [7], [2]], 'passes': passes}
+    texts = []
+    for m in range(max(2, n - 1), n + 2):
+        texts += ['a' + 'b' * (m - 1), 'b' * (m - 1) + 'a', 'b' + 'a' + 'b' * max(m - 2, 0)]
+    spec['texts'] = texts
     return spec
